@@ -13,7 +13,7 @@ import json
 from .. import gen
 from ..common import begin_run, ref_outcomes
 from ..rng import run_rng, stable_hash, weighted
-from ..world import World, classify
+from ..world import World, canon_order, classify
 
 ID = "C16"
 NAME = "c16"
@@ -243,8 +243,8 @@ def execute(scen):
 
     def check_node(name, i, why):
         regs = model.regs(name)
-        got = [w.call(name, c) for c in scen["corpus"]]
-        ref = ref_outcomes(spec, regs, scen["corpus"], label)
+        got = [canon_order(w.call(name, c)) for c in scen["corpus"]]
+        ref = [canon_order(o) for o in ref_outcomes(spec, regs, scen["corpus"], label)]
         trace.append([name, got])
         if got != ref:
             j = next(j for j, (a, b) in enumerate(zip(got, ref)) if a != b)
@@ -341,8 +341,8 @@ def execute(scen):
             if op["node"] not in w.funcs:
                 continue
             model.nodes[op["node"]]["used"] = True
-            got = w.call(op["node"], op["c"])
-            ref = ref_outcomes(spec, model.regs(op["node"]), [op["c"]], label)[0]
+            got = canon_order(w.call(op["node"], op["c"]))
+            ref = canon_order(ref_outcomes(spec, model.regs(op["node"]), [op["c"]], label)[0])
             trace.append(got)
             if got != ref:
                 violation = {"clause": "a node differs from a fresh function built from its parents' methods plus its own",
